@@ -36,4 +36,5 @@ def run(rep, fb, tier):
     __import__("vf.rules.binding2", fromlist=["x"]).rule_binding_call_roles(rep, fb)
     __import__("vf.rules.binding2", fromlist=["x"]).rule_cstr_loses_length(rep, fb)
     __import__("vf.rules.pyrules5", fromlist=["x"]).rule_py_default_none_identity(rep)
+    __import__("vf.rules.lints3", fromlist=["x"]).rule_search_whole_table(rep, fb)
     rep.units = fb.units
